@@ -75,6 +75,8 @@ def parse_sanitizer_logs(prefix):
         tool = fn[len(base) + 1:].split(".")[0]
         if tool not in ("asan", "ubsan", "lsan", "tsan"):
             continue
+        if tool == "lsan":
+            tool = "asan"  # gcc's runtimes share the log_path flag: ASan reports may land in the file named for LSan
         text = open(os.path.join(d, fn), errors="replace").read()
         if tool == "tsan":
             blocks = re.split(r"(?m)^={18}\n", text)
